@@ -88,6 +88,7 @@ type simSource struct {
 	dropped     int
 	reads       int
 	delivered   int
+	onFirstRead func() // run once, before the first Read looks at the queue
 }
 
 func newSimSource(faults *faultPlan) *simSource {
@@ -164,7 +165,12 @@ func (s *simSource) Read(buf []byte) (int, error) {
 		s.useAfter++
 	}
 	s.reads++
+	cb := s.onFirstRead
+	s.onFirstRead = nil
 	s.mu.Unlock()
+	if cb != nil {
+		cb()
+	}
 	if err, zero := s.faults.hit("Read"); err != nil {
 		return 0, err
 	} else if zero {
